@@ -197,10 +197,14 @@ fn answer(line: &str) -> String {
             let plain: u8 = t[3].parse().unwrap();
             let n: usize = t[5].parse().unwrap();
             let mut report = ErrorReport::new(&m, &f);
+            let mut last: Option<&'static PatternNode> = None;
             for k in 0..n {
                 let b = 6 + 7 * k;
                 let loc = (t[b].parse().unwrap(), t[b + 1].parse().unwrap(), t[b + 2].parse().unwrap(), t[b + 3].parse().unwrap());
-                let nd = node(parse_kind(t[b + 4]), loc);
+                // kind `prev`: this entry is pushed against the SAME node as the previous one
+                // (a map pushes its length failure and every missing key against its own node)
+                let nd = if t[b + 4] == "prev" { last.expect("prev without a previous entry") } else { node(parse_kind(t[b + 4]), loc) };
+                last = Some(nd);
                 report.push(nd, unhex_str(t[b + 5]), opt_hex(t[b + 6]));
             }
             let (panicked, out, rec) = format_report(&report, plain);
